@@ -33,7 +33,8 @@ REAL_COMPONENTS = ["Pipeline / LocalSemantivaOrchestrator / SequentialSemantivaE
 STUB_COMPONENTS = ["leaf processors (with a counting tick, nothing recorded per run)", "thread scheduler (mode 4 only)", "SimClock/SimUUID"]
 ASSUMPTIONS = ["gc object increments are reproducible to within a few objects per 100 runs inside a forked child (a no-op control history calibrates the harness's own "
                "footprint to 0)", "proportional growth is what is forbidden; a constant offset is allowed"]
-REQUIRED_PROBES = ["mode.reuse", "mode.fresh", "mode.launch", "mode.queue", "pipeline_with_sweep", "pipeline_with_shorthand"]
+REQUIRED_PROBES = ["mode.reuse", "mode.fresh", "mode.launch", "mode.queue", "pipeline_with_sweep", "pipeline_with_shorthand",
+                   "failing_configuration_repeated", "traced_repeats"]
 CONFIG = {
     "quick": {"runs": 64, "budget_s": 200, "timeout_s": 400},
     "thorough": {"runs": 1600, "budget_s": 1700, "timeout_s": 600},
@@ -55,8 +56,18 @@ def generate(rng: random.Random, tier: str, seed: int) -> dict:
     modes = ["reuse", "fresh", "launch"]
     if rng.random() < 0.25:
         modes.append("queue")
-    return {"base": {k: base[k] for k in ("nodes", "context", "init_data")}, "modes": modes, "n": 450,
-            "sched_seed": rng.getrandbits(48)}
+    sc = {"base": {k: base[k] for k in ("nodes", "context", "init_data")}, "modes": modes, "n": 450,
+          "sched_seed": rng.getrandbits(48), "failing": None, "traced": rng.random() < 0.5}
+    if rng.random() < 0.3:
+        # the repeated configuration FAILS at a node after the first one (every repetition raises / fails its Future)
+        fs = [f for f in gen.applicable_failures(base) if f[0] in ("unresolvable", "type_gate", "undeclared_op", "undeclared_ctx") and f[1] >= 1]
+        if fs:
+            kind, k = rng.choice(fs)
+            f = gen.apply_failure(base, kind, k)
+            sc["base"]["nodes"] = f["nodes"]
+            sc["failing"] = [kind, k]
+            sc["modes"] = [m for m in modes if m != "launch"] + (["queue"] if "queue" not in modes and rng.random() < 0.5 else [])
+    return sc
 
 
 def _containers() -> dict[str, int]:
@@ -218,21 +229,45 @@ def _run_mode(sc: dict, mode: str, w, stats: dict) -> list[dict]:
     svlib.TICK = sampler.tick
     svworld.WORLD = None        # nothing is recorded per run: the harness cannot be the source of growth
     try:
+        failing = bool(sc.get("failing"))
+
+        def one(p):
+            try:
+                p.process(Payload(NoDataType(), ContextType(copy.deepcopy(base["context"]))))
+                if failing:
+                    raise RuntimeError("failing configuration returned")
+            except RuntimeError:
+                raise
+            except Exception:
+                if not failing:
+                    raise
+
+        traced = bool(sc.get("traced"))
+
+        def driver(tag):
+            if not traced:
+                return None
+            svworld.WORLD = None
+            from semantiva.trace.drivers.jsonl import JsonlTraceDriver
+            import os as _os
+            return JsonlTraceDriver(_os.path.join(w.sandbox, f"c18_{tag}.ser.jsonl"), detail="hash")
+
         if mode == "reuse":
-            p = Pipeline(copy.deepcopy(nodes), logger=lg)
+            p = Pipeline(copy.deepcopy(nodes), logger=lg, trace=driver("reuse"))
             roots["reused_pipeline.transport"] = p.transport
             roots["reused_pipeline"] = p
             for _ in range(total):
-                p.process(Payload(NoDataType(), ContextType(copy.deepcopy(base["context"]))))
+                one(p)
         elif mode == "fresh":
             for _ in range(total):
-                p = Pipeline(copy.deepcopy(nodes), logger=lg)
-                p.process(Payload(NoDataType(), ContextType(copy.deepcopy(base["context"]))))
+                p = Pipeline(copy.deepcopy(nodes), logger=lg, trace=driver("fresh"))
+                one(p)
             del p
         elif mode == "launch":
             svworld.WORLD = w   # cwd/sandbox only; leaves record nothing because w.quiet is set
             rs = {"max_runs": 1000, "blocks": [{"mode": "by_position", "context": {"rs_idx": [float(i) for i in range(total)]}}]}
-            harness.write_cli_config(base, "launch.yaml", run_space=rs, executor=False)
+            harness.write_cli_config(base, "launch.yaml", run_space=rs, executor=False,
+                                     trace=harness.trace_cfg("file", "hash", "c18_launch") if traced else None)
             argv = ["run", "launch.yaml", "-q"]
             for k, v in base["context"].items():
                 argv += ["--context", f"{k}={json.dumps(v)}"]
@@ -313,6 +348,10 @@ def _queue_mode(sc: dict, total: int, roots: dict, lg) -> None:
                         state["failed"] = f"job {i} never completed"
                         stop.set()
                         return
+                if (fut.exception() is not None) != bool(sc.get("failing")):
+                    state["failed"] = f"job {i}: unexpected outcome {fut.exception()!r}"
+                    stop.set()
+                    return
                 del fut
             stop.set()
 
@@ -348,7 +387,7 @@ def execute(sc: dict, seed: int) -> dict:
         # sanity: base must run
         p = harness.make_pipeline(sc["base"]["nodes"])
         oc = harness.outcome_of(lambda: p.process(harness.make_payload(sc["base"])))
-        if not oc["ok"]:
+        if oc["ok"] == bool(sc.get("failing")):
             stats["discarded_base_mismatch"] = 1
             return {"violations": [], "stats": stats, "digests": [bd], "nontrivial": []}
         del p, oc
@@ -363,6 +402,11 @@ def execute(sc: dict, seed: int) -> dict:
             stats[f"probe.mode.{mode}"] = 1
             stats["runs_executed"] = stats.get("runs_executed", 0) + sc["n"] + 2
             nontrivial.append(f"{bd}/{mode}")
+        if sc.get("traced"):
+            stats["probe.traced_repeats"] = 1
+        if sc.get("failing"):
+            stats["probe.failing_configuration_repeated"] = 1
+            stats[f"fault.{sc['failing'][0]}"] = 1
         if any("derive" in n for n in sc["base"]["nodes"]):
             stats["probe.pipeline_with_sweep"] = 1
         if any(":" in n["processor"] for n in sc["base"]["nodes"]):
@@ -374,7 +418,7 @@ def execute(sc: dict, seed: int) -> dict:
             if kk not in seen:
                 seen.add(kk)
                 uniq.append(v)
-        sample = {"nodes": sc["base"]["nodes"], "context": sc["base"]["context"], "modes": sc["modes"], "n": sc["n"],
+        sample = {"nodes": sc["base"]["nodes"], "context": sc["base"]["context"], "modes": sc["modes"], "n": sc["n"], "failing": sc.get("failing"),
                   "slopes": {k: round(v, 3) for k, v in stats.items() if k.startswith("slope_")}}
         return {"violations": uniq, "stats": {k: v for k, v in stats.items() if not k.startswith("slope_")}, "digests": [bd],
                 "nontrivial": nontrivial, "sample": sample, "digest": _digest([sc["modes"], sorted(v["key"] for v in uniq)])}  # C18 measures object counts, not an event log
